@@ -73,6 +73,16 @@ filter: total > threshold
 local = months * 2
 filter: local >= 6 and category == "Food"
 ''',
+    '''[Spiky]
+description: uneven months
+top = max(sum(by("month")))
+low = min(sum(by("month")))
+filter: top > low * 2
+
+[Plain]
+filter: total > 10
+description: the rest
+''',
     '''[Total]
 filter: True
 
@@ -111,7 +121,14 @@ def _apply_edit(text, is_merchants, nblank, comment_i, use_comment, ntrail, trai
             # permutation of a section's distinct properties (order of repeated keys - let:/field: - is kept)
             keys = [p.split(':', 1)[0].strip().lower() if ':' in p else p for p in plist]
             movable = [i for i, k in enumerate(keys) if keys.count(k) == 1 and k not in ('let', 'field') and '=' not in plist[i].split(':', 1)[0]]
-            if is_merchants and len(movable) > 1:
+            if not is_merchants:
+                # views: description, filter and the view's own variables may come in any order (the variables keep their order among themselves)
+                movable = list(range(len(plist)))
+                isvar = [':' not in p.split('=', 1)[0] and '=' in p for p in plist]
+                perms = [pm for pm in itertools.permutations(movable) if [x for x in pm if isvar[x]] == [x for x in movable if isvar[x]]]
+                perm = perms[perm_i % len(perms)]
+                plist = [plist[x] for x in perm]
+            elif len(movable) > 1:
                 perms = list(itertools.permutations(movable))
                 perm = perms[perm_i % len(perms)]
                 newp = list(plist)
@@ -381,6 +398,7 @@ M_EXPECTED = [
 ]
 V_EXPECTED = [
     ([('Big', 'total > threshold', [], 'big merchants'), ('Frequent', 'local >= 6 and category == "Food"', [('local', 'months * 2')], None)], [('threshold', '500')]),
+    ([('Spiky', 'top > low * 2', [('low', 'min(sum(by("month")))'), ('top', 'max(sum(by("month")))')], 'uneven months'), ('Plain', 'total > 10', [], 'the rest')], []),
     ([('Total', 'True', [], None), ('Peaks', 'max(sum(by("month"))) > 300 and "recurring" in tags', [], None)], []),
 ]
 BAD_VIEWS = {
@@ -471,7 +489,7 @@ def obligations(tier, seed):
             obs.append(Obligation(id=f'layout-m{i}-{fo}', factory='layout', params={'kind': 'm', 'i': i, 'focus': fo}, timeout=to,
                                   group='layout insensitivity (merchants files)', bounds=f'base file m{i}; symbolic ' + what[fo]))
     for i in range(len(V_BASES)):
-        for fo in ['lines', 'space']:
+        for fo in ['lines', 'space', 'keys']:
             obs.append(Obligation(id=f'layout-v{i}-{fo}', factory='layout', params={'kind': 'v', 'i': i, 'focus': fo}, timeout=to,
                                   group='layout insensitivity (views files)', bounds=f'base file v{i}; symbolic ' + what[fo]))
     for i in range(len(M_BASES)):
